@@ -753,8 +753,10 @@ impl Arena {
     }
     let header = self.header_mut();
 
-    let want = header.allocated + size;
-    if want <= self.cap {
+    // computed in u64: `allocated + size` must not wrap around for huge requests
+    let want = header.allocated as u64 + size as u64;
+    if want <= self.cap as u64 {
+      let want = want as u32;
       let offset = header.allocated;
       header.allocated = want;
 
@@ -863,9 +865,10 @@ impl Arena {
     let allocated = header.allocated;
     let aligned_offset = align_offset::<T>(allocated);
     let size = mem::size_of::<T>() as u32;
-    let want = aligned_offset + size + extra;
+    let want = aligned_offset as u64 + size as u64 + extra as u64;
 
-    if want <= self.cap {
+    if want <= self.cap as u64 {
+      let want = want as u32;
       // break size + extra;
       let offset = header.allocated;
       header.allocated = want;
@@ -883,11 +886,11 @@ impl Arena {
     // allocate through slow path
     match self.freelist {
       Freelist::None => Err(Error::InsufficientSpace {
-        requested: size + extra,
+        requested: size.saturating_add(extra),
         available: self.remaining() as u32,
       }),
       Freelist::Optimistic => {
-        match self.alloc_slow_path_optimistic(Self::pad::<T>() as u32 + extra) {
+        match self.alloc_slow_path_optimistic((Self::pad::<T>() as u32).saturating_add(extra)) {
           Ok(mut bytes) => {
             bytes.align_bytes_to::<T>();
             Ok(Some(bytes))
@@ -896,7 +899,7 @@ impl Arena {
         }
       }
       Freelist::Pessimistic => {
-        match self.alloc_slow_path_pessimistic(Self::pad::<T>() as u32 + extra) {
+        match self.alloc_slow_path_pessimistic((Self::pad::<T>() as u32).saturating_add(extra)) {
           Ok(mut bytes) => {
             bytes.align_bytes_to::<T>();
             Ok(Some(bytes))
@@ -980,9 +983,10 @@ impl Arena {
     let allocated = header.allocated;
     let align_offset = align_offset::<T>(allocated);
     let size = t_size as u32;
-    let want = align_offset + size;
+    let want = align_offset as u64 + size as u64;
 
-    if want <= self.cap {
+    if want <= self.cap as u64 {
+      let want = want as u32;
       let offset = header.allocated;
       header.allocated = want;
       let mut allocated = Meta::new(self.ptr as _, offset, want - offset);
@@ -1002,7 +1006,7 @@ impl Arena {
     // allocate through slow path
     match self.freelist {
       Freelist::None => Err(Error::InsufficientSpace {
-        requested: want,
+        requested: want.min(u32::MAX as u64) as u32,
         available: self.remaining() as u32,
       }),
       Freelist::Optimistic => match self.alloc_slow_path_optimistic(Self::pad::<T>() as u32) {
